@@ -351,9 +351,11 @@ PPL::Grid::remove_higher_space_dimensions(const dimension_type new_dimension) {
     if (generators_are_minimized()) {
       // Count the actual number of rows that are now redundant.
       dimension_type num_redundant = 0;
-      const dimension_type num_old_gs = space_dim - new_dimension;
-      for (dimension_type row = 0; row < num_old_gs; ++row) {
-        if (dim_kinds[row] != GEN_VIRTUAL) {
+      // The rows of the removed dimensions are the trailing ones:
+      // `dim_kinds[dim]' describes the row of space dimension `dim - 1'
+      // (index 0 being the row of the point).
+      for (dimension_type dim = space_dim; dim > new_dimension; --dim) {
+        if (dim_kinds[dim] != GEN_VIRTUAL) {
           ++num_redundant;
         }
       }
